@@ -89,7 +89,9 @@ def objects(rng, per_vector):
     for cls in sorted(vectors, key=sweep.qualname):
         name = sweep.qualname(cls)
         for v in vectors[cls]:
-            for b in [v] + [sweep.mutate(rng, v) for _ in range(per_vector)] + hostile_texts(rng, v, 2 + per_vector):
+            # directed malformations too (numbers at the ends of their range, members of other types): what the parser still accepts
+            # must still be serialisable
+            for b in [v] + [sweep.mutate(rng, v) for _ in range(per_vector)] + hostile_texts(rng, v, 2 + per_vector) + sweep.directed(rng, v, (), 8 * per_vector, 4):
                 try:
                     obj, _ = cls.parse_immutable(b)
                 except Exception:  # pylint: disable=broad-except
